@@ -63,11 +63,16 @@ struct PeerInner {
     sent: BTreeMap<&'static str, u64>,
     connects: u64,
     refuse_stream_connects: u64,
+    /// when the first copy of each request reached the peer (virtual clock)
+    first_seen: HashMap<Vec<u8>, tokio::time::Instant>,
 }
 
 struct Peer {
     inner: Mutex<PeerInner>,
     rng: Mutex<Rng>,
+    /// capacity of the in-memory pipe of a stream connection: small ones make every frame go
+    /// out in several partial writes
+    pipe: usize,
 }
 
 fn kind_name(k: Kind) -> &'static str {
@@ -141,6 +146,7 @@ impl Peer {
         let Some(q) = pm.questions.first() else { return vec![] };
         let name = w::lower(&q.name);
         g.seen.push((pm.id, name.clone(), path));
+        g.first_seen.entry(name.clone()).or_insert_with(tokio::time::Instant::now);
         let n = *g.attempts.entry(name.clone()).and_modify(|a| *a += 1).or_insert(0);
         let acts: Vec<Act> = g.scripts.get(&name).and_then(|s| s.get(n)).cloned().unwrap_or_else(|| vec![Act { delay_ms: 1, kind: Kind::Good }]);
         let foreign = if g.recent.len() > 1 { Some(g.recent[g.recent.len() - 2].clone()) } else { None };
@@ -301,7 +307,7 @@ impl AsyncConnect for StConnect {
                     return Err(io::Error::new(io::ErrorKind::ConnectionRefused, "refused"));
                 }
             }
-            let (client, server) = tokio::io::duplex(1 << 16);
+            let (client, server) = tokio::io::duplex(peer.pipe);
             tokio::spawn(serve_stream(peer, server));
             Ok(client)
         })
@@ -318,7 +324,7 @@ fn gen_script(rng: &mut Rng, path_has_stream: bool, dgram: bool) -> Script {
         let noise = rng.below(3);
         for _ in 0..noise {
             let kind = *rng.pick(&[Kind::WrongId, Kind::WrongQuestion, Kind::NotResponse, Kind::Garbage, Kind::Short, Kind::Foreign, Kind::HeaderOnlyErrorWrongId]);
-            acts.push(Act { delay_ms: rng.range(0, 400) as u64, kind });
+            acts.push(Act { delay_ms: if rng.chance(1, 3) { rng.range(400, 1950) } else { rng.range(0, 400) } as u64, kind });
         }
         let fin = match rng.below(12) {
             0 => None, // nothing more: lost
@@ -359,6 +365,8 @@ struct Setup {
     has_stream: bool,
     has_dgram: bool,
     resp_timeout: Duration,
+    /// (1 + retries) * read timeout of the datagram transport
+    dg_budget: Duration,
 }
 
 fn build(transport: &str, peer: &Arc<Peer>, rng: &mut Rng, scale: u64) -> Setup {
@@ -375,18 +383,18 @@ fn build(transport: &str, peer: &Arc<Peer>, rng: &mut Rng, scale: u64) -> Setup 
     mc.set_response_timeout(resp_timeout);
     let dg_budget = read_timeout * (retries as u32 + 1);
     match transport {
-        "dgram" => Setup { conn: Box::new(dgram::Connection::with_config(DgConnect { peer: peer.clone() }, dc)), budget: dg_budget * 110, has_stream: false, has_dgram: true, resp_timeout },
+        "dgram" => Setup { conn: Box::new(dgram::Connection::with_config(DgConnect { peer: peer.clone() }, dc)), budget: dg_budget * 110, has_stream: false, has_dgram: true, resp_timeout, dg_budget },
         "stream" => {
-            let (client, server) = tokio::io::duplex(1 << 16);
+            let (client, server) = tokio::io::duplex(peer.pipe);
             tokio::spawn(serve_stream(peer.clone(), server));
             let (conn, tr) = stream::Connection::<RequestMessage<Vec<u8>>, domain::net::client::request::RequestMessageMulti<Vec<u8>>>::with_config(client, sc);
             tokio::spawn(tr.run());
-            Setup { conn: Box::new(conn), budget: resp_timeout * 4, has_stream: true, has_dgram: false, resp_timeout }
+            Setup { conn: Box::new(conn), budget: resp_timeout * 4, has_stream: true, has_dgram: false, resp_timeout, dg_budget }
         }
         "multi_stream" => {
             let (conn, tr) = multi_stream::Connection::with_config(StConnect { peer: peer.clone() }, mc);
             tokio::spawn(tr.run());
-            Setup { conn: Box::new(conn), budget: resp_timeout * 8, has_stream: true, has_dgram: false, resp_timeout }
+            Setup { conn: Box::new(conn), budget: resp_timeout * 8, has_stream: true, has_dgram: false, resp_timeout, dg_budget }
         }
         "dgram_stream" => {
             let mut c = dgram_stream::Config::new();
@@ -394,7 +402,7 @@ fn build(transport: &str, peer: &Arc<Peer>, rng: &mut Rng, scale: u64) -> Setup 
             c.set_stream(mc);
             let (conn, tr) = dgram_stream::Connection::with_config(DgConnect { peer: peer.clone() }, StConnect { peer: peer.clone() }, c);
             tokio::spawn(tr.run());
-            Setup { conn: Box::new(conn), budget: dg_budget * 110 + resp_timeout * 8, has_stream: true, has_dgram: true, resp_timeout }
+            Setup { conn: Box::new(conn), budget: dg_budget * 110 + resp_timeout * 8, has_stream: true, has_dgram: true, resp_timeout, dg_budget }
         }
         "redundant" => {
             let (conn, tr) = redundant::Connection::new();
@@ -407,7 +415,7 @@ fn build(transport: &str, peer: &Arc<Peer>, rng: &mut Rng, scale: u64) -> Setup 
                 let _ = conn2.add(Box::new(c1)).await;
                 let _ = conn2.add(Box::new(c2)).await;
             });
-            Setup { conn: Box::new(conn), budget: dg_budget * 110 + resp_timeout * 8, has_stream: true, has_dgram: true, resp_timeout }
+            Setup { conn: Box::new(conn), budget: dg_budget * 110 + resp_timeout * 8, has_stream: true, has_dgram: true, resp_timeout, dg_budget }
         }
         _ => {
             let (conn, tr) = load_balancer::Connection::new();
@@ -420,7 +428,7 @@ fn build(transport: &str, peer: &Arc<Peer>, rng: &mut Rng, scale: u64) -> Setup 
                 let _ = conn2.add("a", &cc, Box::new(c1)).await;
                 let _ = conn2.add("b", &cc, Box::new(c2)).await;
             });
-            Setup { conn: Box::new(conn), budget: dg_budget * 220, has_stream: false, has_dgram: true, resp_timeout }
+            Setup { conn: Box::new(conn), budget: dg_budget * 220, has_stream: false, has_dgram: true, resp_timeout, dg_budget }
         }
     }
 }
@@ -432,6 +440,7 @@ struct Done {
     result: Result<Vec<u8>, String>,
     elapsed: Duration,
     timed_out: bool,
+    done_at: tokio::time::Instant,
 }
 
 const TRANSPORTS: [&str; 6] = ["dgram", "stream", "multi_stream", "dgram_stream", "redundant", "load_balancer"];
@@ -477,7 +486,7 @@ fn one_case(c: &mut Ctx, fam: &str, idx: u64) {
         scripts.insert(w::lower(nm), sc);
     }
     let refuse = if !clean && matches!(transport, "multi_stream" | "dgram_stream" | "redundant") && rng.chance(1, 4) { rng.range(1, 3) as u64 } else { 0 };
-    let peer = Arc::new(Peer { inner: Mutex::new(PeerInner { seen: vec![], scripts, attempts: HashMap::new(), recent: vec![], sent: BTreeMap::new(), connects: 0, refuse_stream_connects: refuse }), rng: Mutex::new(Rng::new(&[c.seed, idx, 15])) });
+    let peer = Arc::new(Peer { inner: Mutex::new(PeerInner { seen: vec![], scripts, attempts: HashMap::new(), recent: vec![], sent: BTreeMap::new(), connects: 0, refuse_stream_connects: refuse, first_seen: HashMap::new() }), rng: Mutex::new(Rng::new(&[c.seed, idx, 15])), pipe: *rng.pick(&[8usize, 13, 64, 1 << 16, 1 << 16]) });
     // net::client::stream measures its response timeout with std::time::Instant, which the paused tokio clock does not move:
     // the plain stream transport is exercised in real time, with every delay and timeout a tenth as long
     let real_time = transport == "stream";
@@ -511,10 +520,11 @@ fn one_case(c: &mut Ctx, fam: &str, idx: u64) {
                     let mut gr = conn.send_request(mk_request(&qn));
                     let r = tokio::time::timeout(if scale > 1 { Duration::from_secs(40) } else { budget + Duration::from_secs(600) }, gr.get_response()).await;
                     let elapsed = t0.elapsed();
+                    let done_at = tokio::time::Instant::now();
                     match r {
-                        Ok(Ok(m)) => Done { k, qname: qn, result: Ok(m.as_slice().to_vec()), elapsed, timed_out: false },
-                        Ok(Err(e)) => Done { k, qname: qn, result: Err(format!("{}", e)), elapsed, timed_out: false },
-                        Err(_) => Done { k, qname: qn, result: Err("never completed".into()), elapsed, timed_out: true },
+                        Ok(Ok(m)) => Done { k, qname: qn, result: Ok(m.as_slice().to_vec()), elapsed, timed_out: false, done_at },
+                        Ok(Err(e)) => Done { k, qname: qn, result: Err(format!("{}", e)), elapsed, timed_out: false, done_at },
+                        Err(_) => Done { k, qname: qn, result: Err("never completed".into()), elapsed, timed_out: true, done_at },
                     }
                 }));
             }
@@ -522,16 +532,16 @@ fn one_case(c: &mut Ctx, fam: &str, idx: u64) {
             for h in handles {
                 match h.await {
                     Ok(d) => out.push(d),
-                    Err(e) => out.push(Done { k: usize::MAX, qname: vec![], result: Err(format!("task: {}", e)), elapsed: Duration::ZERO, timed_out: false }),
+                    Err(e) => out.push(Done { k: usize::MAX, qname: vec![], result: Err(format!("task: {}", e)), elapsed: Duration::ZERO, timed_out: false, done_at: tokio::time::Instant::now() }),
                 }
             }
-            (out, budget, setup.has_stream, setup.resp_timeout)
+            (out, budget, setup.has_stream, setup.resp_timeout, setup.dg_budget)
             
         })
     });
     let _ = hard;
     let ex = json!({"transport": transport, "requests": n, "waves": waves, "refused_connects": refuse});
-    let (done, budget, _hs, resp_timeout) = match res {
+    let (done, budget, _hs, resp_timeout, dg_budget) = match res {
         Ok(x) => x,
         Err(pi) => {
             c.violation(&format!("panic:{}", pi.site()), &format!("panic in the {} client transport: {} at {}:{}", transport, pi.msg, pi.file, pi.line), c.replay_of(fam, idx, ex));
@@ -585,6 +595,18 @@ fn one_case(c: &mut Ctx, fam: &str, idx: u64) {
         if trickle && d.elapsed > resp_timeout * 3 + Duration::from_secs(1) {
             c.violation("completes-late:stream:silent-peer-under-a-trickle-of-requests", &format!("request {} over the stream transport failed only after {:?}; the response timeout is {:?} and the peer never said a word (later requests must not keep earlier ones waiting)", d.k, d.elapsed, resp_timeout), rp(c, json!({})));
             return;
+        }
+        // the datagram transport on its own: from the moment the first copy of the request is out,
+        // (1 + retries) read timeouts are all the time there is, whatever else arrives meanwhile
+        if transport == "dgram" && !d.timed_out {
+            if let Some(t1) = g.first_seen.get(&w::lower(&d.qname)) {
+                let took = d.done_at.saturating_duration_since(*t1);
+                if took > dg_budget + Duration::from_millis(20) {
+                    c.violation("completes-late:dgram:beyond-retries-times-read-timeout", &format!("request {} over dgram completed {:?} after its first datagram went out; read timeout times attempts is {:?}", d.k, took, dg_budget), rp(c, json!({})));
+                    return;
+                }
+                c.count("dgram_requests_within_tight_budget", 1);
+            }
         }
         if d.elapsed > allowed {
             c.violation(&format!("completes-late:{}", transport), &format!("request {} over {} completed after {:?}; the configured timeouts and retries add up to less than {:?}", d.k, transport, d.elapsed, budget), rp(c, json!({})));
